@@ -1,7 +1,423 @@
-//! C05 — node-level correspondence harness (stub; see /verif/AGENT_GUIDE.md).
+//! C05 — script verdict and cycle count do not depend on how execution is chunked.
+//!
+//! Drives the real `ckb_script::TransactionScriptsVerifier` on the repo's own RISC-V test programs
+//! (`/repo/script/testdata`, plus `always_success` of ckb-test-chain-utils) in mock resolved
+//! transactions: one-shot `verify`, `resumable_verify` + `resume_from_state` over limit schedules
+//! driven to completion, `resumable_verify` + `complete`, `resumable_verify_with_signal` with
+//! Suspend/Resume at random instants; budgets C−1, C, C+1 around the measured cost C.
+//!
+//! Line protocol (model side: lean/CkbVerif/Driver/C05.lean):
+//!   prog <name> <cost:code,...>        per script group, measured with unlimited one-shot runs
+//!   verify <B>                          -> ok <cycles> | exceeded | fail <code> | other
+//!   chunks <L1,L2,...>                  resumable_verify(L1), resume_from_state(L2) ... (last limit
+//!                                       repeated) until completed -> final result
+//!   complete <L> <B> <idx> <p>          resumable_verify(L) suspended in group idx with p cycles
+//!                                       consumed inside it (observed), then complete(state, B)
+//!   signal <B> <idx> <p>                not generated (pause points are not observable); signal runs
+//!                                       are `note` lines checked by the oracle only
+//!   note <text>                         -> ok
 use crate::common::*;
+use ckb_chain_spec::consensus::{Consensus, ConsensusBuilder};
+use ckb_script::{ChunkCommand, ScriptError, ScriptVersion, TransactionScriptError, TransactionScriptsVerifier, TransactionState, TxVerifyEnv, VerifyResult};
+use ckb_traits::{CellDataProvider, ExtensionProvider, HeaderProvider};
+use ckb_types::bytes::Bytes;
+use ckb_types::core::cell::{CellMeta, CellMetaBuilder, ResolvedTransaction};
+use ckb_types::core::{Capacity, EpochNumberWithFraction, HeaderView, TransactionBuilder, TransactionInfo};
+use ckb_types::packed::{self, Byte32, CellInput, CellOutput, OutPoint, Script};
+use ckb_types::prelude::*;
+use std::sync::Arc;
 
-pub fn run(_opts: &Opts) {
-    eprintln!("C05: harness not implemented");
-    std::process::exit(2);
+#[derive(Clone)]
+struct NoData;
+impl CellDataProvider for NoData {
+    fn get_cell_data(&self, _out_point: &OutPoint) -> Option<Bytes> {
+        None
+    }
+    fn get_cell_data_hash(&self, _out_point: &OutPoint) -> Option<Byte32> {
+        None
+    }
+}
+impl HeaderProvider for NoData {
+    fn get_header(&self, _hash: &Byte32) -> Option<HeaderView> {
+        None
+    }
+}
+impl ExtensionProvider for NoData {
+    fn get_block_extension(&self, _hash: &Byte32) -> Option<packed::Bytes> {
+        None
+    }
+}
+
+type Verifier = TransactionScriptsVerifier<NoData>;
+
+fn load(name: &str) -> Bytes {
+    if name == "always_success" {
+        let (_, data, _) = ckb_test_chain_utils::always_success_cell();
+        return data.clone();
+    }
+    Bytes::from(std::fs::read(format!("/repo/script/testdata/{name}")).unwrap_or_else(|e| panic!("testdata {name}: {e}")))
+}
+
+fn code_cell(data: Bytes, k: u32) -> (CellMeta, Byte32) {
+    let out = CellOutput::new_builder().capacity(Capacity::bytes(data.len()).unwrap()).build();
+    let meta = CellMetaBuilder::from_cell_output(out, data)
+        .out_point(OutPoint::new(Byte32::zero(), 100 + k))
+        .transaction_info(TransactionInfo::new(1, EpochNumberWithFraction::new(0, 1, 10), Byte32::zero(), 1))
+        .build();
+    let h = meta.mem_cell_data_hash.clone().unwrap();
+    (meta, h)
+}
+
+/// a program set: (lock program, other programs that must be in the cell deps, version, extra type-script programs on outputs)
+struct Prog {
+    name: &'static str,
+    lock: &'static str,
+    deps: &'static [&'static str],
+    version: ScriptVersion,
+    types: &'static [&'static str],
+}
+
+const PROGS: &[Prog] = &[
+    Prog { name: "as-v0", lock: "always_success", deps: &[], version: ScriptVersion::V0, types: &[] },
+    Prog { name: "as-v1", lock: "always_success", deps: &[], version: ScriptVersion::V1, types: &[] },
+    Prog { name: "as-v2", lock: "always_success", deps: &[], version: ScriptVersion::V2, types: &[] },
+    Prog { name: "as-3groups", lock: "always_success", deps: &[], version: ScriptVersion::V2, types: &["always_success", "vm_version_2"] },
+    Prog { name: "failure", lock: "always_failure", deps: &[], version: ScriptVersion::V1, types: &[] },
+    Prog { name: "as-then-failure", lock: "always_success", deps: &[], version: ScriptVersion::V1, types: &["always_failure"] },
+    Prog { name: "strcat", lock: "spawn_caller_strcat", deps: &["spawn_callee_strcat"], version: ScriptVersion::V2, types: &[] },
+    Prog { name: "strcat-wrap", lock: "spawn_caller_strcat_wrap", deps: &["spawn_caller_strcat", "spawn_callee_strcat"], version: ScriptVersion::V2, types: &[] },
+    Prog { name: "spawn-cycles", lock: "spawn_caller_current_cycles", deps: &["spawn_callee_current_cycles"], version: ScriptVersion::V2, types: &[] },
+    Prog { name: "spawn-exec", lock: "spawn_caller_exec", deps: &["spawn_callee_exec_caller", "spawn_callee_exec_callee"], version: ScriptVersion::V2, types: &[] },
+    Prog { name: "spawn-recursive", lock: "spawn_recursive", deps: &[], version: ScriptVersion::V2, types: &[] },
+    Prog { name: "spawn-17", lock: "spawn_create_17_spawn", deps: &[], version: ScriptVersion::V2, types: &[] },
+    Prog { name: "spawn-io-cycles", lock: "spawn_io_cycles", deps: &[], version: ScriptVersion::V2, types: &[] },
+    Prog { name: "spawn-huge-swap", lock: "spawn_huge_swap", deps: &[], version: ScriptVersion::V2, types: &[] },
+    Prog { name: "spawn-saturate", lock: "spawn_saturate_memory", deps: &[], version: ScriptVersion::V2, types: &[] },
+    Prog { name: "exec-cell", lock: "exec_caller_from_cell_data", deps: &["exec_callee"], version: ScriptVersion::V1, types: &[] },
+    Prog { name: "exec-cell-v2", lock: "exec_caller_from_cell_data", deps: &["exec_callee"], version: ScriptVersion::V2, types: &[] },
+    Prog { name: "current-cycles", lock: "current_cycles", deps: &[], version: ScriptVersion::V1, types: &[] },
+    Prog { name: "vm-version", lock: "vm_version", deps: &[], version: ScriptVersion::V1, types: &[] },
+    Prog { name: "vm-version-2", lock: "vm_version_2", deps: &[], version: ScriptVersion::V2, types: &[] },
+    Prog { name: "mop-adc", lock: "mop_adc_lock", deps: &[], version: ScriptVersion::V1, types: &[] },
+    Prog { name: "cpop", lock: "cpop_lock", deps: &[], version: ScriptVersion::V1, types: &[] },
+    Prog { name: "load-arith", lock: "load_arithmetic", deps: &[], version: ScriptVersion::V1, types: &[] },
+    Prog { name: "spawn-then-as", lock: "spawn_caller_strcat", deps: &["spawn_callee_strcat"], version: ScriptVersion::V2, types: &["always_success", "spawn_recursive"] },
+];
+
+fn build(p: &Prog) -> ResolvedTransaction {
+    let mut deps = vec![];
+    let mut k = 0u32;
+    let mut add = |name: &str, deps: &mut Vec<CellMeta>| -> Byte32 {
+        let (m, h) = code_cell(load(name), k);
+        k += 1;
+        deps.push(m);
+        h
+    };
+    let lock_hash = add(p.lock, &mut deps);
+    for d in p.deps {
+        add(d, &mut deps);
+    }
+    let lock = Script::new_builder().hash_type(p.version.data_hash_type()).code_hash(lock_hash).build();
+    let input_cell = CellOutput::new_builder().capacity(Capacity::shannons(100_000_000_000)).lock(lock).build();
+    let mut tb = TransactionBuilder::default().input(CellInput::new(OutPoint::new(Byte32::zero(), 7), 0));
+    for (i, t) in p.types.iter().enumerate() {
+        let h = add(t, &mut deps);
+        // distinct args make distinct groups even for the same program
+        let ty = Script::new_builder().hash_type(p.version.data_hash_type()).code_hash(h).args(Bytes::from(vec![i as u8]).pack()).build();
+        let (_, _, as_lock) = ckb_test_chain_utils::always_success_cell();
+        tb = tb
+            .output(CellOutput::new_builder().capacity(Capacity::shannons(10_000_000_000)).lock(as_lock.clone()).type_(Some(ty)).build())
+            .output_data(Bytes::new());
+    }
+    let input_meta = CellMetaBuilder::from_cell_output(input_cell, Bytes::new())
+        .out_point(OutPoint::new(Byte32::zero(), 7))
+        .transaction_info(TransactionInfo::new(1, EpochNumberWithFraction::new(0, 1, 10), Byte32::zero(), 1))
+        .build();
+    ResolvedTransaction { transaction: tb.build(), resolved_cell_deps: deps, resolved_inputs: vec![input_meta], resolved_dep_groups: vec![] }
+}
+
+fn verifier(rtx: &ResolvedTransaction, consensus: &Arc<Consensus>) -> Verifier {
+    let header = HeaderView::new_advanced_builder().epoch(EpochNumberWithFraction::new(5, 0, 10)).number(50).build();
+    TransactionScriptsVerifier::new(Arc::new(rtx.clone()), NoData, Arc::clone(consensus), Arc::new(TxVerifyEnv::new_commit(&header)))
+}
+
+fn class_of(e: &ckb_error::Error) -> String {
+    match e.downcast_ref::<TransactionScriptError>().map(|t| t.script_error()) {
+        Some(ScriptError::ExceededMaximumCycles(_)) => "exceeded".into(),
+        Some(ScriptError::ValidationFailure(_, code)) => format!("fail {code}"),
+        Some(ScriptError::Other(_)) => "other".into(),
+        Some(ScriptError::CyclesOverflow(..)) => "overflow".into(),
+        Some(ScriptError::Interrupts) => "interrupts".into(),
+        Some(ScriptError::VMInternalError(e)) => format!("vm-error:{}", format!("{e:?}").split(['(', ' ']).next().unwrap_or("?")),
+        Some(other) => format!("script-error:{}", format!("{other:?}").split(['(', ' ']).next().unwrap_or("?")),
+        None => "non-script-error".into(),
+    }
+}
+
+fn show(r: &Result<u64, ckb_error::Error>) -> String {
+    match r {
+        Ok(c) => format!("ok {c}"),
+        Err(e) => class_of(e),
+    }
+}
+
+/// per-group (cost, exit code) with unlimited budget; None if some group ends in a VM error
+fn measure(v: &Verifier) -> Option<Vec<(u64, i8)>> {
+    let mut out = vec![];
+    for (hash, g) in v.groups() {
+        match v.verify_single(g.group_type, hash, u64::MAX) {
+            Ok(c) => out.push((c, 0)),
+            Err(ScriptError::ValidationFailure(_, code)) => out.push((0, code)),
+            Err(_) => return None,
+        }
+    }
+    Some(out)
+}
+
+struct Case {
+    v: Verifier,
+    groups: Vec<(u64, i8)>,
+    total: u64,
+    all_ok: bool,
+}
+
+fn drive_chunks(v: &Verifier, limits: &[u64]) -> (Result<u64, ckb_error::Error>, u64) {
+    let mut i = 0;
+    let mut state: Option<TransactionState> = None;
+    let mut rounds = 0u64;
+    loop {
+        let l = limits[i.min(limits.len() - 1)];
+        i += 1;
+        rounds += 1;
+        let r = match &state {
+            None => v.resumable_verify(l),
+            Some(s) => v.resume_from_state(s, l),
+        };
+        match r {
+            Err(e) => return (Err(e), rounds),
+            Ok(VerifyResult::Completed(c)) => return (Ok(c), rounds),
+            Ok(VerifyResult::Suspended(s)) => state = Some(s),
+        }
+        assert!(rounds < 50_000_000, "chunk drive does not terminate");
+    }
+}
+
+fn exec_case(lines: &[String], out: &mut Out, consensus: &Arc<Consensus>, rt: &tokio::runtime::Runtime) {
+    let mut case: Option<Case> = None;
+    for line in lines {
+        let t: Vec<&str> = line.split(' ').collect();
+        match t[0] {
+            "prog" => {
+                let p = PROGS.iter().find(|p| p.name == t[1]).unwrap_or_else(|| panic!("unknown program {}", t[1]));
+                let rtx = build(p);
+                let v = verifier(&rtx, consensus);
+                let groups = measure(&v).unwrap_or_else(|| panic!("program {} does not run", p.name));
+                let shown: Vec<String> = groups.iter().map(|(c, e)| format!("{c}:{e}")).collect();
+                assert_eq!(shown.join(","), t[2], "program {} measures differently on replay", p.name);
+                let total = groups.iter().map(|g| g.0).sum();
+                let all_ok = groups.iter().all(|g| g.1 == 0);
+                case = Some(Case { v, groups, total, all_ok });
+                out.op(line, "ok");
+            }
+            "note" => out.op(line, "ok"),
+            "verify" => {
+                let c = case.as_ref().expect("prog first");
+                let b: u64 = t[1].parse().unwrap();
+                let r = c.v.verify(b);
+                out.op(line, &show(&r));
+                out.count("op:verify");
+                oracle_budget(out, c, "verify", b, &r, line);
+            }
+            "chunks" => {
+                let c = case.as_ref().expect("prog first");
+                let limits: Vec<u64> = t[1].split(',').map(|x| x.parse().unwrap()).collect();
+                let (r, rounds) = drive_chunks(&c.v, &limits);
+                out.op(line, &show(&r));
+                out.count("op:chunks");
+                if rounds > 1 {
+                    out.nontrivial(format!("chunks/{}/{}", t[1].len().min(12), rounds.min(64)));
+                }
+                // oracle: any partition driven to completion = the unlimited one-shot run
+                let one = c.v.verify(u64::MAX);
+                if show(&one) != show(&r) {
+                    out.oracle_fail("chunked-differs-from-oneshot", &format!("oneshot={} chunked={} rounds={rounds} op={line}", show(&one), show(&r)));
+                }
+            }
+            "complete" => {
+                let c = case.as_ref().expect("prog first");
+                let (l, b): (u64, u64) = (t[1].parse().unwrap(), t[2].parse().unwrap());
+                match c.v.resumable_verify(l) {
+                    Ok(VerifyResult::Suspended(s)) => {
+                        let p = s.state.as_ref().map(|f| f.total_cycles).unwrap_or(0);
+                        assert_eq!((s.current as u64, p), (t[3].parse().unwrap(), t[4].parse().unwrap()), "suspension point differs on replay");
+                        let r = c.v.complete(&s, b);
+                        out.op(line, &show(&r));
+                        out.count("op:complete");
+                        out.nontrivial(format!("complete/{}/{}", s.current, show(&r).split(' ').next().unwrap()));
+                        oracle_budget(out, c, "complete", b, &r, line);
+                    }
+                    Ok(VerifyResult::Completed(n)) => out.op(line, &format!("completed-early {n}")),
+                    Err(e) => out.op(line, &class_of(&e)),
+                }
+            }
+            _ => panic!("C05: bad op {line:?}"),
+        }
+    }
+    let _ = rt;
+}
+
+/// the budget clause of the property on the implementation's own answers
+fn oracle_budget(out: &mut Out, c: &Case, entry: &str, b: u64, r: &Result<u64, ckb_error::Error>, line: &str) {
+    if !c.all_ok {
+        return;
+    }
+    if b < c.total {
+        if let Ok(n) = r {
+            out.oracle_fail(&format!("{entry}-succeeds-below-cost"), &format!("budget={b} cost={} returned=ok {n} op={line}", c.total));
+        } else if show(r) != "exceeded" {
+            out.count(&format!("{entry}:below-cost-error-not-exceeded"));
+        }
+    } else if show(r) != format!("ok {}", c.total) {
+        out.oracle_fail(&format!("{entry}-differs-with-sufficient-budget"), &format!("budget={b} cost={} returned={} op={line}", c.total, show(r)));
+    }
+}
+
+/// signal path: Suspend/Resume at random instants; returns the result
+fn run_signal(rt: &tokio::runtime::Runtime, v: &Verifier, budget: u64, rng: &mut Rng, toggles: u64) -> Result<u64, ckb_error::Error> {
+    let (tx, mut rx) = tokio::sync::watch::channel(ChunkCommand::Resume);
+    let delays: Vec<u64> = (0..toggles * 2).map(|_| rng.below(400)).collect();
+    let h = std::thread::spawn(move || {
+        for (i, d) in delays.iter().enumerate() {
+            std::thread::sleep(std::time::Duration::from_micros(*d));
+            let _ = tx.send(if i % 2 == 0 { ChunkCommand::Suspend } else { ChunkCommand::Resume });
+        }
+        // keep the sender alive until the verifier is done
+        std::thread::sleep(std::time::Duration::from_millis(3000));
+        drop(tx);
+    });
+    let r = rt.block_on(async { v.resumable_verify_with_signal(budget, &mut rx).await });
+    drop(h); // detached; it ends by itself
+    r
+}
+
+fn gen_case(p: &Prog, rng: &mut Rng, thorough: bool, consensus: &Arc<Consensus>) -> Option<Vec<String>> {
+    let rtx = build(p);
+    let v = verifier(&rtx, consensus);
+    let groups = measure(&v)?;
+    let total: u64 = groups.iter().map(|g| g.0).sum();
+    let all_ok = groups.iter().all(|g| g.1 == 0);
+    let mut lines = vec![format!("prog {} {}", p.name, groups.iter().map(|(c, e)| format!("{c}:{e}")).collect::<Vec<_>>().join(","))];
+    // budgets
+    if all_ok {
+        for b in [total.saturating_sub(1), total, total + 1, 0, total / 2, u64::MAX] {
+            lines.push(format!("verify {b}"));
+        }
+        let mut acc = 0;
+        for g in &groups {
+            acc += g.0;
+            for b in [acc.saturating_sub(1), acc] {
+                lines.push(format!("verify {b}"));
+            }
+        }
+    } else {
+        lines.push(format!("verify {}", u64::MAX));
+    }
+    // chunk schedules driven to completion
+    let exhaustive = total <= 4096;
+    if exhaustive {
+        let step = if thorough { 1 } else { 7 };
+        let mut l = 1;
+        while l <= total + 1 {
+            lines.push(format!("chunks {l}"));
+            l += step;
+        }
+    }
+    let n_random = if thorough { 60 } else { 12 };
+    for _ in 0..n_random {
+        let k = rng.range(1, 6);
+        let base = (total / rng.range(2, 40)).max(if exhaustive { 1 } else { total / 400 + 1 });
+        let ls: Vec<String> = (0..k).map(|_| (rng.range(1, base.max(1)) + if exhaustive { 0 } else { total / 400 }).to_string()).collect();
+        lines.push(format!("chunks {}", ls.join(",")));
+    }
+    // suspend, then complete with budgets around the true cost
+    if all_ok && total > 2 {
+        let n = if thorough { 40 } else { 10 };
+        for _ in 0..n {
+            let l = rng.range(1, total - 1);
+            if let Ok(VerifyResult::Suspended(s)) = v.resumable_verify(l) {
+                let p_in = s.state.as_ref().map(|f| f.total_cycles).unwrap_or(0);
+                for b in [total - 1, total, total + 1, l, total.saturating_sub(p_in), total.saturating_sub(p_in).saturating_sub(1)] {
+                    lines.push(format!("complete {l} {b} {} {p_in}", s.current));
+                }
+            }
+        }
+    }
+    Some(lines)
+}
+
+pub fn run(opts: &Opts) {
+    let consensus = Arc::new(ConsensusBuilder::default().build());
+    let rt = tokio::runtime::Builder::new_multi_thread().worker_threads(2).enable_all().build().expect("tokio runtime");
+    let mut out = Out::new(&opts.out);
+    if let Some(rp) = &opts.replay {
+        let lines = read_replay_ops(rp);
+        let mut cur: Vec<String> = vec![];
+        let mut label = String::from("replay");
+        let mut any = false;
+        for l in lines.into_iter().chain(std::iter::once("case end".to_string())) {
+            if l.starts_with("case ") {
+                if any || !cur.is_empty() {
+                    out.begin_case(&label);
+                    exec_case(&cur, &mut out, &consensus, &rt);
+                    cur.clear();
+                }
+                any = true;
+                label = l.splitn(3, ' ').nth(2).unwrap_or("replay").to_string();
+            } else {
+                cur.push(l);
+            }
+        }
+        out.finish("replay");
+        return;
+    }
+    let mut rng = Rng::new(opts.seed ^ 0xC05);
+    let mut skipped = vec![];
+    for p in PROGS {
+        match gen_case(p, &mut rng, opts.thorough(), &consensus) {
+            None => skipped.push(p.name),
+            Some(lines) => {
+                out.begin_case(p.name);
+                exec_case(&lines, &mut out, &consensus, &rt);
+                // signal path (oracle only: pause instants are wall-clock, not observable)
+                let c_rtx = build(p);
+                let v = verifier(&c_rtx, &consensus);
+                if let Some(groups) = measure(&v) {
+                    let total: u64 = groups.iter().map(|g| g.0).sum();
+                    let all_ok = groups.iter().all(|g| g.1 == 0);
+                    let one = v.verify(u64::MAX);
+                    let n = if opts.thorough() { 30 } else { 6 } * opts.scale;
+                    for _ in 0..n {
+                        let toggles = rng.range(0, 4);
+                        let budget = *rng.pick(&[u64::MAX, total, total + 1, total.saturating_sub(1), total / 2]);
+                        let r = run_signal(&rt, &v, budget, &mut rng, toggles);
+                        out.op(&format!("note signal budget={budget} toggles={toggles}"), "ok");
+                        out.count("op:signal");
+                        if all_ok {
+                            if budget < total {
+                                if let Ok(n) = &r {
+                                    out.oracle_fail("signal-succeeds-below-cost", &format!("budget={budget} cost={total} returned=ok {n} toggles={toggles}"));
+                                }
+                            } else if show(&r) != format!("ok {total}") {
+                                out.oracle_fail("signal-differs-with-sufficient-budget", &format!("budget={budget} cost={total} returned={}", show(&r)));
+                            }
+                        } else if budget == u64::MAX && show(&r) != show(&one) {
+                            out.oracle_fail("signal-differs-from-oneshot", &format!("oneshot={} signal={}", show(&one), show(&r)));
+                        }
+                    }
+                }
+            }
+        }
+    }
+    out.extra.insert("programs_skipped".into(), serde_json::json!(skipped));
+    out.finish("a chunk schedule is non-trivial if the run was suspended at least once (fingerprint: schedule shape / number of rounds); every suspend+complete pair (fingerprint: suspended group index / result class)");
 }
